@@ -1051,6 +1051,8 @@ void World::deliver(InFlight& f)
             if (model::RefStatus::isIf(obs[i]) && obs[i].payload.size() >= 4)
                 ifAlphabet.insert(wire::rd32(obs[i].payload.data()));
             stat->update(out[i]);
+            if (++statusUpdates == 257)
+                probe("more-than-256-updates-of-one-tracker");
             res.apiCalls++;
             refStat.update(obs[i]);
             if (is("C16"))
